@@ -5,12 +5,12 @@ SPEC = {
     "groups": ["delta"],
     "files": ["src/payload/delta.rs"],
     "harnesses": {
-        "quick": ["c12_merge_1_1_1", "c12_merge_1_0_1", "c12_merge_0_1_0"],
-        "thorough": ["c12_merge_2_1_2", "c12_merge_1_2_1", "c12_merge_2_2_2"],
+        "quick": ["c12_counts_1_1_1", "c12_counts_1_0_1", "c12_counts_0_1_0"],
+        "thorough": ["c12_counts_2_1_2", "c12_counts_1_2_1", "c12_counts_2_2_2", "c12_items_1_1_1", "c12_items_1_0_1", "c12_items_0_1_0", "c12_items_2_1_2"],
     },
     "harness_file": {"*": ("delta.rs", "src/payload/delta.rs")},
     "timeout": {"quick": 900, "thorough": 7200},
-    "jobs": {"quick": 3, "thorough": 3},
+    "jobs": {"quick": 3, "thorough": 6},
 }
 
 
